@@ -879,6 +879,155 @@ theorem addCategory_in_force {g g' : Reg} {a : AddArgs} {info : CatInfo}
   cases hci
   exact ⟨u', r, rfl⟩
 
+/-! ### objects that come out of an operation -/
+
+/-- **validation does not depend on how the object was produced**: whatever production path — direct
+construction, `ObtainQuantity` in its mapping or list form, arithmetic with a number (either side),
+sums/differences of objects written in other units or belonging to another category of the quantity type,
+pickle round trips, `CreateCopy`, nested in any order and depth — ends in an object whose quantity is the
+quantity of ONE category `c` in unit `u` (exponent 1), the direct construction `X(c.name, values, u)`
+succeeds and is the SAME model object (same `CategoryInfo`, same conversion row, same values, no memoised
+verdict) -/
+theorem validity_independent_of_provenance {g : Reg} {p : Prov} {c : CatInfo} {u : Sym} {r : UnitRow}
+    {s : Shape} (h : build g p = .ok (.simple c u r, s)) :
+    build g (.direct c.name u s) = .ok (.simple c u r, s) := by
+  have hc := build_canon h c u r rfl
+  unfold build
+  rw [hc]
+
+/-- hence two objects of the same category name, unit and values answer every sequence of
+`CheckValidity` / `IsValid` calls alike, whatever their two production paths were -/
+theorem provenance_calls_agree {g : Reg} {p p' : Prov} {c c' : CatInfo} {u : Sym} {r r' : UnitRow}
+    {s : Shape} (h : build g p = .ok (.simple c u r, s)) (h' : build g p' = .ok (.simple c' u r', s))
+    (hn : c.name = c'.name) (cs : List Call) :
+    calls g (.simple c u r) s.obj cs = calls g (.simple c' u r') s.obj cs := by
+  have h1 := build_canon h c u r rfl
+  have h2 := build_canon h' c' u r' rfl
+  rw [hn, h2] at h1
+  cases h1
+  rfl
+
+/-- a produced object meets the hypotheses of the theorems above: its category is the registered one and
+its row is the row of its unit, a row of the table -/
+theorem produced_object_wellformed {g : Reg} {p : Prov} {c : CatInfo} {u : Sym} {r : UnitRow} {s : Shape}
+    (h : build g p = .ok (.simple c u r, s)) :
+    g.cat? c.name = some c ∧ g.db.getInfo c.qtype u true = .ok r ∧ r ∈ g.units := by
+  obtain ⟨ci, u', r', hq, hc, hi, hm⟩ := mkQuant_ok (build_canon h c u r rfl)
+  cases hq
+  exact ⟨hc, hi, hm⟩
+
+/-- **no produced object escapes the limits**: a Scalar that came out of any production path into a
+limited category is accepted exactly when its amount, converted to the default unit, satisfies the limits;
+a flat Array exactly when all its non-NaN amounts do -/
+theorem produced_checked_by_amount {g : Reg} (hg : RowsOK g.units) {p : Prov} {c : CatInfo} {u : Sym}
+    {r : UnitRow} (hl : c.limited = true) :
+    (∀ v, build g p = .ok (.simple c u r, .scalar v) →
+      ((checkValidity g (.simple c u r) (Shape.scalar v).obj).2 = .ok () ↔
+        ∃ v', convToDefault g c u r v = .ok v' ∧ Sat c v'))
+    ∧ (∀ kind vs, build g p = .ok (.simple c u r, .array (.flat kind vs)) →
+      ((checkValidity g (.simple c u r) (Shape.array (.flat kind vs)).obj).2 = .ok () ↔
+        ∀ v ∈ vs, v.isNan = false → ∃ v', convToDefault g c u r v = .ok v' ∧ Sat c v')) := by
+  constructor
+  · intro v _
+    exact checkValue_spec g u r v hl
+  · intro kind vs h
+    obtain ⟨_, _, hm⟩ := produced_object_wellformed h
+    have key : (checkValidity g (.simple c u r) (Shape.array (.flat kind vs)).obj).2 = .ok () ↔
+        doValidate g (.simple c u r) (.flat kind vs) = .ok () := by
+      simp only [Shape.obj, checkValidity, validateValues, Cache.fresh]
+      cases hd : doValidate g (.simple c u r) (.flat kind vs) <;> simp
+    rw [key, array_valid_iff_all hg hm kind vs]
+    constructor
+    · intro hv v hvm hn; exact (checkValue_spec g u r v hl).mp (hv v hvm hn)
+    · intro hv v hvm hn; exact (checkValue_spec g u r v hl).mpr (hv v hvm hn)
+
+/-! ### `AddCategory` with `None` flags, `GetDefaultValue`, `CheckValueForCategory`, `ScalarMinMaxValidator` -/
+
+/-- **the exclusivity flags and the caption of a registered category**: a value that was given is stored
+as given; an explicit `None` is inherited from the `from_category` source when there is one, and is falsy
+(an inclusive limit) otherwise -/
+theorem addCategoryRaw_flags {g g' : Reg} {r : AddArgsRaw} {info : CatInfo}
+    (h : addCategoryRaw g r = .ok (g', info)) :
+    (∀ b, r.minExcl = some b → info.minExcl = b) ∧ (∀ b, r.maxExcl = some b → info.maxExcl = b)
+    ∧ (∀ c, r.caption = some c → info.caption = c)
+    ∧ (∀ src, rawSource g r = some src →
+        (r.minExcl = none → info.minExcl = src.minExcl) ∧ (r.maxExcl = none → info.maxExcl = src.maxExcl)
+        ∧ (r.caption = none → info.caption = src.caption))
+    ∧ (rawSource g r = none →
+        (r.minExcl = none → info.minExcl = false) ∧ (r.maxExcl = none → info.maxExcl = false)) := by
+  obtain ⟨h1, h2, h3⟩ := addCategory_flags h
+  simp only [resolveRaw] at h1 h2 h3
+  refine ⟨?_, ?_, ?_, ?_, ?_⟩
+  · intro b hb; rw [h1, hb]
+  · intro b hb; rw [h2, hb]
+  · intro c hc; rw [h3, hc]
+  · intro src hs
+    refine ⟨?_, ?_, ?_⟩
+    · intro hn; rw [h1, hn, hs]
+    · intro hn; rw [h2, hn, hs]
+    · intro hn; rw [h3, hn, hs]
+  · intro hs
+    refine ⟨?_, ?_⟩
+    · intro hn; rw [h1, hn, hs]
+    · intro hn; rw [h2, hn, hs]
+
+/-- every theorem about `addCategory` speaks about the call with `None` flags as well: it IS the call
+with the flags in force -/
+theorem addCategoryRaw_default_scalar_valid {g g' : Reg} {r : AddArgsRaw} {info : CatInfo}
+    (h : addCategoryRaw g r = .ok (g', info)) :
+    g'.cat? r.base.category = some info ∧ getDefaultValue g' r.base.category = .ok info.defaultValue
+      ∧ Sat info info.defaultValue := by
+  have hf := (addCategory_in_force h).1
+  obtain ⟨_, _, hsat, _⟩ := addCategory_default_ok h
+  have hc : (resolveRaw g r).category = r.base.category := rfl
+  rw [hc] at hf
+  refine ⟨hf, ?_, hsat⟩
+  unfold getDefaultValue
+  rw [hf]
+
+/-- **`CheckValueForCategory(category, value, unit)` is the validity check of `Scalar(category, value,
+unit)`**; without a unit the default unit of the category is meant -/
+theorem checkValueForCategory_as_scalar (g : Reg) (c : Sym) (v : Val) :
+    (∀ u q, mkQuant g c u = .ok q →
+      checkValueForCategory g c v (some u) = (checkValidity g q (.scalar v)).2)
+    ∧ (∀ ci, g.cat? c = some ci →
+      checkValueForCategory g c v none = checkValueForCategory g c v (some ci.defaultUnit)) := by
+  constructor
+  · intro u q h
+    simp [checkValueForCategory, obtainFor, h, checkValidity]
+  · intro ci h
+    simp [checkValueForCategory, obtainFor, h]
+
+/-- **`ScalarMinMaxValidator` complains exactly when `CheckValue` rejects, and its complaint is
+`CheckValue`'s**: for the quantity of any constructed Scalar the predicate is `None` iff the value is
+accepted, it carries operator `op`, limit `m` and amount `w` iff `CheckValue` raises exactly that — and
+then `w` is the value converted to the default unit, `m` is a limit of the category that `w` violates with
+that operator ("a rejection reports the violated limit and operator") -/
+theorem validator_rejects_iff_checkValue {g : Reg} {cn u0 : Sym} {c : CatInfo} {u : Sym} {r : UnitRow}
+    (h : mkQuant g cn u0 = .ok (.simple c u r)) (v : Val) :
+    (validatorPredicate g (.simple c u r) v = .ok none ↔ checkValue g (.simple c u r) v = .ok ())
+    ∧ (∀ op m w, validatorPredicate g (.simple c u r) v = .ok (some (.validation op m w)) ↔
+        checkValue g (.simple c u r) v = .error (.validation op m w))
+    ∧ (∀ op m w, validatorPredicate g (.simple c u r) v = .ok (some (.validation op m w)) →
+        convToDefault g c u r v = .ok w ∧ Violated c op m w ∧ ¬ Sat c w) := by
+  have hc := mkQuant_canon h c u r rfl
+  have two : ∀ op m w, validatorPredicate g (.simple c u r) v = .ok (some (.validation op m w)) ↔
+        checkValue g (.simple c u r) v = .error (.validation op m w) := by
+    intro op m w
+    simp only [validatorPredicate, hc]
+    split
+    · rename_i hv; simp [hv]
+    · rename_i hv; simp [hv]
+    · rename_i e' hv; by_cases he : e' = .value <;> simp [hv, he]
+  refine ⟨?_, two, ?_⟩
+  · simp only [validatorPredicate, hc]
+    split
+    · rename_i hv; simp [hv]
+    · rename_i hv; simp [hv]
+    · rename_i e' hv; by_cases he : e' = .value <;> simp [hv, he]
+  · intro op m w hvp
+    exact checkValue_error_spec g u r v ((two op m w).mp hvp)
+
 /-! ### the shipped unit tables satisfy the hypothesis (regenerated and re-proved on every run) -/
 
 theorem rowsOK_of_all {units : List UnitRow} (h1 : units.all UnitRow.wf = true)
